@@ -12,7 +12,7 @@ import sys
 import tempfile
 from unittest import mock
 
-from harness import common, tlegen
+from harness import common, tlegen, numeric
 
 LEVEL = "proof"
 
@@ -503,7 +503,12 @@ def run(ctx):
         "platform_names is not constrained by the property text: after a crash between CREATE TABLE and its INSERT the row is never "
         "written (theorem C15_names_gap); no violation is raised for that",
     ]
+    src, _names = numeric.regen_ast(ctx, "db", "the SQL texts class SQLiteTLE issues, the epoch key expression and the inserted row; sqlite's "
+                                    "behaviour on those statements stays the oracle of the hand model",
+                                    optional=True)
     ctx.build_props("props/C15.v")
+    if src is not None:
+        ctx.build_props("props/C15_source.v")
     logging.disable(logging.CRITICAL)
     tmpdir = tempfile.mkdtemp(prefix="verif-c15-", dir="/var/tmp")
     try:
